@@ -57,5 +57,12 @@ Definition known_C03 (c : c03case) : list Z :=
   (if ev_collapse ev then [3] else []) ++
   (if run_complete false (init_sys (c03_n c)) (c03_ops c) then [] else [4]).
 
+(* the model's own view of "the last two rounds request nothing" (hypothesis of C03_outside_known) *)
+Definition c03_hist (c : c03case) : list sop := match c with C03Case _ h _ => h end.
+Definition c03_quiet (c : c03case) : bool :=
+  forallb (Z.eqb 0) (run_flags false (run_sys false (init_sys (c03_n c)) (c03_hist c)) (c03_final c)).
+Definition no_deletes (ops : list sop) : bool :=
+  forallb (fun o => match o with Delete _ _ _ => false | _ => true end) ops.
+
 Definition eval_C03 (c : c03case) (obs : list Z) : list Z :=
   [zb (zlist_eqb (run_C03 c) obs); zb (spec_C03 c obs)] ++ known_C03 c.
